@@ -150,6 +150,10 @@ func c16Split(s string) []string {
 }
 
 func c16Mutate(rng *Rng, seed string) (string, string) {
+	if seed == "" {
+		// (a first mutation may have truncated everything away: nothing to split)
+		return Choose(rng, c16Words), "insert-word"
+	}
 	switch k := rng.Intn(12); k {
 	case 0, 1:
 		return seed[:rng.Intn(len(seed)+1)], "truncate"
